@@ -26,6 +26,7 @@ from ..core import Ctx, Report, pmap
 from ..tlc import MachineryError, fn_to_dict
 
 NET_TPLS = ["binet", "splitnet"]
+THREE_TPLS = ["tri3", "split3", "homo3", "trimer"]        # three units of base stoichiometry on one side
 ALL_TPLS = ["uni", "bi", "split", "influx", "efflux", "rev", "homo", "dimer", "cof", "byst", "der", "chain"]
 
 CFG = """CONSTANTS
@@ -50,6 +51,22 @@ CHECK_DEADLOCK FALSE
 """
 
 
+SESSION_CFG = """CONSTANTS
+    MaxNL = {maxnl}
+    MaxSets = {maxsets}
+    Styles = {styles}
+    Memo = FALSE
+    EmitOn = TRUE
+INIT Init
+NEXT Next
+INVARIANT Faithful
+INVARIANT FieldsStable
+INVARIANT Closed
+INVARIANT Emit
+CHECK_DEADLOCK FALSE
+"""
+
+
 def cfg_text(tpls, maxnl, maxl, short=True, initall=False, mode="occurrence", emit=True, ords=("std",)) -> str:
     return CFG.format(ords="{" + ", ".join(f'"{o}"' for o in ords) + "}", tpls="{" + ", ".join(f'"{t}"' for t in tpls) + "}", maxnl=maxnl, maxl=maxl,
                       short="TRUE" if short else "FALSE", initall="TRUE" if initall else "FALSE", mode=mode,
@@ -70,6 +87,11 @@ def observe(scn: dict) -> dict:
     base = lk.build_base(b, rnd)
     il = lk.initial_labels(scn.get("req", {}))
     mapper = LabelMapper(base, label_variables=lk.label_variables(b), label_maps=lk.label_maps(b))
+    return observe_built(scn, base, mapper, il)
+
+
+def observe_built(scn: dict, base, mapper, il: dict) -> dict:
+    """Call build_model on the (possibly already used) mapper and read the observables of the labelled model."""
     try:
         lm = mapper.build_model(initial_labels=il if il else None)
     except Exception as e:  # noqa: BLE001  (the statement says "rejected", not which exception)
@@ -141,6 +163,70 @@ def base_crosscheck(scn: dict, obs: dict) -> str | None:
         if bad:
             return json.dumps(bad)
     return None
+
+
+# ---- sessions on one mapper object (spec/LabelExpandSession.tla) ------------------------------------------------
+def replay_session(sess: dict) -> dict | None:
+    """Drive ONE real LabelMapper along the session; after every build compare with the expansion of the fields the
+    specification holds at that point.  None = conforms."""
+    from mxlpy import LabelMapper
+
+    steps = sess["steps"]
+    last_build = next(st for st in reversed(steps) if st["op"]["k"] == "build")
+    base = lk.build_base(lk.norm_b(last_build["out"]["b"]), None)        # the base model does not depend on the fields
+    f0 = steps[0]                                                          # the first operation leaves the fields as they are
+    mapper = LabelMapper(base, label_variables={c: int(n) for c, n in fn_to_dict(f0["fields"]).items()},
+                         label_maps={r: [int(x) for x in m] for r, m in fn_to_dict(f0["maps"]).items()})
+    handed = None
+    for j, st in enumerate(steps):
+        op = st["op"]
+        k = op["k"]
+        fields = {c: int(n) for c, n in fn_to_dict(st["fields"]).items()}
+        maps = {r: [int(x) for x in m] for r, m in fn_to_dict(st["maps"]).items()}
+        if k == "build":
+            exp = st["out"]
+            obs = observe_built(exp, base, mapper, lk.initial_labels(exp.get("req", {})))
+            bad = judge(exp, obs)
+            if bad is not None:
+                return {"step": j + 1, "history": [x["op"] for x in steps[: j + 1]], "fields": fields, **bad}
+        elif k == "get":
+            handed = mapper.get_isotopomers()
+        elif k == "tamper":
+            if handed:
+                handed.pop(next(iter(handed)))
+            for v in (handed or {}).values():
+                v.append("junk")
+            if handed is not None:
+                handed["ZZ"] = ["ZZ__0", "ZZ__1"]
+        elif k in ("set", "style"):
+            if op["how"] == "inplace":
+                if k == "set":
+                    if int(op["n"]) == 0:
+                        del mapper.label_variables[op["c"]]
+                    else:
+                        mapper.label_variables[op["c"]] = int(op["n"])
+                for r in list(mapper.label_maps):
+                    if r not in maps:
+                        del mapper.label_maps[r]
+                for r, m in maps.items():
+                    mapper.label_maps[r] = m
+            else:
+                mapper.label_variables = dict(fields)
+                mapper.label_maps = dict(maps)
+            if dict(mapper.label_variables) != fields:
+                raise MachineryError(f"replayer and specification disagree on the fields after {op}")
+        else:
+            raise MachineryError(f"unknown session operation {op}")
+    return None
+
+
+def _work_session(sess: dict):
+    try:
+        return replay_session(sess), None
+    except Exception:  # noqa: BLE001
+        import traceback
+
+        return None, "harness exception:\n" + traceback.format_exc()[-1500:]
 
 
 def classify(scn: dict, detail: dict) -> str | None:
@@ -409,6 +495,9 @@ def run(ctx: Ctx) -> int:
             dict(name="orders", what="exhaustive: A+B->C, A->B+C, cofactor and chain templates in the presentation orders swap / rev / "
                  "swaprev, label counts 1..2, all maps with max(S,P)<=3",
                  tpls=["bi", "split", "cof", "chain"], maxnl=2, maxl=3, short=False, ords=("swap", "rev", "swaprev")),
+            dict(name="three", what="exhaustive: three units on one side (A+B+C->D, A->B+C+D, 2A+B->C with non-adjacent mentions, A->3B), "
+                 "label counts 1..2, all maps with max(S,P)<=3, short maps",
+                 tpls=THREE_TPLS, maxnl=2, maxl=3),
             dict(name="orders_net", what="exhaustive: merge and split inside a network (0->A, 0->B, A+B->C->0; 0->A->B+C, B->0, C->0) whose "
                  "other reactions introduce the compounds first, all four presentation orders, label counts 1..2, all maps max(S,P)<=2",
                  tpls=NET_TPLS, maxnl=2, maxl=2, short=False, ords=("std", "swap", "rev", "swaprev")),
@@ -429,6 +518,9 @@ def run(ctx: Ctx) -> int:
             dict(name="orders", what="exhaustive: every template except chain in the presentation orders swap / rev / swaprev, label "
                  "counts 1..2, all maps with max(S,P)<=4",
                  tpls=[t for t in ALL_TPLS if t not in heavy], maxnl=2, maxl=4, short=False, ords=("swap", "rev", "swaprev")),
+            dict(name="three", what="exhaustive: three units on one side (A+B+C->D, A->B+C+D, 2A+B->C with non-adjacent mentions, A->3B), "
+                 "label counts 1..2, all maps with max(S,P)<=4, short maps",
+                 tpls=THREE_TPLS, maxnl=2, maxl=4),
             dict(name="orders_net", what="exhaustive: merge and split inside a network whose other reactions introduce the compounds "
                  "first, all four presentation orders, label counts 1..2, all maps max(S,P)<=3",
                  tpls=NET_TPLS, maxnl=2, maxl=3, short=False, ords=("std", "swap", "rev", "swaprev")),
@@ -456,7 +548,7 @@ def run(ctx: Ctx) -> int:
         raise MachineryError(f"only {n_ord} merge/split cases whose compounds are written against the declaration order")
     rep.notes["cases"] = {"total": len(scns), "rejected_expected": n_rej, "doubled_multi_position": n_dbl,
                           "merge_split_against_declaration_order": n_ord,
-                          "by_template": {t: sum(1 for s in scns if s["tpl"] == t) for t in ALL_TPLS + NET_TPLS}}
+                          "by_template": {t: sum(1 for s in scns if s["tpl"] == t) for t in ALL_TPLS + NET_TPLS + THREE_TPLS}}
     # ---- binding self-test: one corrupted expected value must be noticed by the comparison ---------------------
     probe = next(s for s in scns if s["outcome"] == "ok" and s["tpl"] == "bi")
     probe_obs = observe(probe)
@@ -495,6 +587,46 @@ def run(ctx: Ctx) -> int:
                     "req": s["req"], "n_reactions": len(s["rxns"]),
                     "first_reaction": sorted(s["rxns"], key=lambda r: r["name"])[0],
                     "dy_at_state_1": s["pts"][0]["dy"]})
+    n_three = sum(1 for s in scns if s["outcome"] == "ok" and s["tpl"] in THREE_TPLS)
+    if n_three < 100:
+        raise MachineryError(f"only {n_three} accepted cases with three units on one side of a mapped reaction")
+    rep.notes["cases"]["three_units_on_a_side"] = n_three
+    # ---- sessions on one mapper object -------------------------------------------------------------------------
+    memo = ctx.tlc("LabelExpandSession.tla", "LabelExpandSession_memo.cfg", expect_violation=True)
+    if memo.violated != "Faithful":
+        raise MachineryError("Memo=TRUE (isotopomer table generated once per mapper) should violate Faithful; "
+                             f"TLC said {memo.violated!r}: the session specification has lost its teeth")
+    rep.notes["memo_shape_counterexample"] = "TLC: Faithful violated for Memo=TRUE (table memoised at first use, fields changed, build)"
+    scfg = ctx.write_cfg("sessions.cfg", SESSION_CFG.format(
+        maxnl=2 if ctx.quick else 1, maxsets=1 if ctx.quick else 2, styles='{"id"}'))
+    cfgs = [("sessions", scfg)]
+    if not ctx.quick:
+        cfgs.append(("sessions2", ctx.write_cfg("sessions2.cfg", SESSION_CFG.format(maxnl=2, maxsets=1, styles='{"id", "rev"}'))))
+    sessions = []
+    for tag, cfgp in cfgs:
+        res = ctx.tlc("LabelExpandSession.tla", str(cfgp), tag=tag, workers=8, jvm=["-Xmx4g"])
+        rep.add_tlc(res, "sessions on one mapper: first use (build | get | get, tamper) x field mutations (count added / changed / "
+                         "removed, map style; in place | by assignment) each followed by build; control build, build")
+        sessions += res.payloads
+    if len(sessions) < 1000:
+        raise MachineryError(f"only {len(sessions)} mapper sessions emitted")
+    kinds = {st["op"]["k"] for s_ in sessions for st in s_["steps"]}
+    if kinds != {"build", "get", "tamper", "set", "style"}:
+        raise MachineryError(f"session family does not exercise every operation: {sorted(kinds)}")
+    sres = pmap(_work_session, sessions, chunk=16)
+    n_sess_bad = 0
+    for sess, (bad, crash) in zip(sessions, sres):
+        if crash is not None:
+            raise MachineryError(crash)
+        rep.replayed += 1
+        rep.evaluations += 1
+        rep.distinct.add(("session", json.dumps([[st["op"], st["fields"]] for st in sess["steps"]], sort_keys=True)))
+        if bad is not None:
+            n_sess_bad += 1
+            rep.mismatch({"session": [{"op": st["op"], "fields": st["fields"], "maps": st["maps"]} for st in sess["steps"]],
+                          "steps": sess["steps"]}, bad, None)
+    rep.notes["sessions"] = {"total": len(sessions), "not_conforming": n_sess_bad,
+                             "builds": sum(1 for s_ in sessions for st in s_["steps"] if st["op"]["k"] == "build")}
     # ---- code -> spec --------------------------------------------------------------------------------------
     cases = doc_example_cases()
     n_rand = 300 if ctx.quick else 4000
@@ -554,6 +686,14 @@ def run(ctx: Ctx) -> int:
 
 def replay(ctx: Ctx, doc: dict) -> int:
     scn = doc["scenario"]
+    if "session" in scn:
+        bad = replay_session({"steps": scn["steps"]})
+        print(json.dumps({"session": scn["session"], "detail": bad}, indent=1, default=str))
+        if bad is not None:
+            print("VIOLATION property=C05 replay=(given)")
+            return 1
+        print("conforms")
+        return 0
     if "oracle_case" in scn:
         c = scn["oracle_case"]
         if "seed" in c:
